@@ -1368,6 +1368,9 @@ class WcParse(Generic[AnyStr]):
                     current.append(value)
                 self.consume_path_sep(i)
                 current.append(sep)
+            else:
+                # Merged with the previous `globstar`; its separators still count as one.
+                self.consume_path_sep(i)
             self.set_start_dir()
         else:
             current.append(value)
